@@ -1,10 +1,10 @@
-\* Thorough tier: strings of <= 6 symbols in 4 folding contexts.
+\* Thorough tier: strings of <= 6 symbols in 2 folding contexts.
 SPECIFICATION Spec
 CONSTANTS
   MaxLen = 6
   Maxlines = {12}
   Indents = {3}
-  LinePos = {0, 8}
+  LinePos = {8}
   EndSpaces = {3}
   Avoids = {FALSE, TRUE}
   Safe = TRUE
